@@ -32,6 +32,7 @@ from spyne.util import six
 from spyne.util.six.moves.collections_abc import Iterable as AbcIterable
 
 from spyne import BODY_STYLE_BARE
+from spyne.model.complex import XmlModifier
 from spyne.error import ValidationError
 from spyne.error import ResourceNotFoundError
 
@@ -217,6 +218,11 @@ class HierDictDocument(DictDocument):
             raise ValidationError([key, inst])
 
     def _from_dict_value(self, ctx, key, cls, inst, validator):
+        if issubclass(cls, XmlModifier):
+            # XmlAttribute / XmlData members are ordinary members here: read
+            # and validate them as what they wrap.
+            cls = cls.type
+
         if validator is self.SOFT_VALIDATION:
             self.validate(key, cls, inst)
 
